@@ -928,7 +928,8 @@ impl LineBuf {
 
 		for line in line_range {
 			let Some((start,end)) = self.line_bounds(line) else { continue };
-			let exclusive = end != self.cursor.max;
+			// a window never takes the line's terminator; only an unterminated last line has none
+			let exclusive = end > start && self.grapheme_at(end - 1) == Some("\n");
 			let clamped_start = ClampedUsize::new(start, end, exclusive).with_min(start);
 			let pos1 = clamped_start.ret_add(anchor_col);
 			let pos2 = clamped_start.ret_add(cursor_col);
